@@ -70,6 +70,9 @@ inline void
 Variable_Floating_Point_Expression<FP_Interval_Type, FP_Format>
 ::linear_form_assign(const FP_Linear_Form& lf,
                            FP_Linear_Form_Abstract_Store& lf_store) const {
+  // Record the new form first, so that it is discarded too
+  // if it mentions the variable itself.
+  lf_store[variable_index] = lf;
   for (typename FP_Linear_Form_Abstract_Store::iterator
          i = lf_store.begin(); i != lf_store.end(); ) {
     if ((i->second).coefficient(Variable(variable_index)) != 0) {
@@ -79,7 +82,6 @@ Variable_Floating_Point_Expression<FP_Interval_Type, FP_Format>
       ++i;
     }
   }
-  lf_store[variable_index] = lf;
   return;
 }
 
